@@ -72,10 +72,12 @@ def replay_instances(thorough):
         # the factory, with DisableNonPublicAddrPublishing
         ("fact", C(init=("Lpriv", "Lpub"), relay=(("Rel1", "Rel2"),), reach=("private",), fm=ALLF, pubonly=True, env=3), None),
         # autonat v2: the tracker
-        ("trk", C(pool=("Lpub",), obsk=("Lpriv",), obsc=("e", "b"), relay=(("Rel1",),), tracker=True, env=3, t=2, hour=1), None),
+        ("trk", C(pool=("Lpub",), obsk=("Lpriv",), obsc=("e", "b"), relay=(("Rel1",),), tracker=True, env=2, t=2, hour=1), None),
         # stub reads of one update as separate steps
         ("split", C(pool=("Lun",), natk=("Lpriv",), natc=("-", "Npub"), obsk=("Lpriv", "Ri1"), obsc=("e", "a"), split=True, close=1,
                     env=2, notify=2), None),
+        # ... with relay / reachability events arriving meanwhile (Addrs() uses the new reachability on the old lists)
+        ("splitr", C(init=("Lpub",), nat=False, relay=(("Rel1",),), reach=("private", "public"), split=True, env=3), None),
         # no NAT manager, no observed-address manager
         ("bare", C(pool=("Lpriv", "Lun"), init=(), nat=False, obs=False, relay=(("Rel2",),), reach=("private",), env=3), None),
         # Start / Close at any moment
@@ -99,12 +101,12 @@ def replay_instances(thorough):
 def exhaustive_instances(thorough):
     """(name, constants, TLC workers): bigger than what is printed; no sequential skeleton"""
     out = [
-        ("xall", C(pool=("Lun",), natk=("Lpriv",), natc=("-", "Npub"), obsk=("Lpriv", "Ri2"), obsc=("e", "c"), relay=((), ("Rel1",)),
-                   reach=("private", "public"), fm=("id", "droppub"), first=False, close=1, env=3, notify=2), 2),
+        ("xall", C(pool=("Lun",), natk=("Lpriv",), natc=("-", "Npub"), obsk=("Lpriv", "Ri2"), obsc=("e", "c"), relay=(("Rel1",),),
+                   reach=("private",), fm=("id", "droppub"), first=False, close=1, env=3, notify=1), 1),
         ("xsplit", C(pool=("Lun",), natk=("Lpriv",), natc=("-", "Npub"), obsk=("Lpriv", "Ri1"), obsc=("e", "c"), relay=(("Rel1",),),
-                     reach=("private",), split=True, first=False, close=1, env=3, notify=2), 2),
+                     reach=("private",), split=True, first=False, close=1, env=2, notify=1), 1),
         ("xtrk", C(pool=("Lpub",), obsk=("Lpriv",), obsc=("e", "b"), relay=(("Rel1",),), tracker=True, first=False, close=1,
-                   env=3, t=2, hour=1, notify=2), 2),
+                   env=2, t=2, hour=1, notify=1), 1),
     ]
     if thorough:
         out = [
@@ -129,8 +131,9 @@ def liveness_instances(thorough):
     return out
 
 
+STALE = C(init=("Lpriv", "Lpub"), relay=(("Rel1",),), reach=("private",), split=True, env=2)
 PROBES = [("ReachCapped", "obs"), ("ReachRelayShown", "relay"), ("ReachPublicHidden", "relay"), ("ReachUnreachableDropped", "trk"),
-          ("ReachTorn", "split"), ("ReachCloseMidUpdate", "split"), ("ReachStaleQuery", "split"), ("ReachDedup", "obs")]
+          ("ReachTorn", "split"), ("ReachCloseMidUpdate", "split"), ("ReachStaleQuery", STALE), ("ReachDedup", "obs")]
 
 
 def _consts(c):
@@ -275,7 +278,7 @@ def run(ctx):
         fp = [pool.submit(_print_instance, (ctx, i, beh)) for i in rin]
         fx = [pool.submit(_exhaustive, (ctx, i)) for i in xin]
         fl = [pool.submit(_liveness, (ctx, i)) for i in lin]
-        fg = [pool.submit(_reach, (ctx, p, by_name[c])) for p, c in PROBES]
+        fg = [pool.submit(_reach, (ctx, p, by_name[c] if isinstance(c, str) else c)) for p, c in PROBES]
         pres = [f.result() for f in fp]
         mark("graphs")
         fgo = tp.submit(_go, ctx, beh)
